@@ -38,6 +38,8 @@ type Identity struct {
 	OAuthAdmin bool
 	// Federated: a signed-in user known by a federated identity only (no e-mail)
 	Federated string
+	// OAuthNoEmail: a valid OAuth token whose account has no e-mail address
+	OAuthNoEmail bool
 }
 
 // RPC describes one API call, for fault scripts and logs.
@@ -196,7 +198,7 @@ func (p *Platform) apply(id Identity, service, method string, in, out proto.Mess
 	defer p.mu.Unlock()
 	switch service + "." + method {
 	case "user.GetOAuthUser":
-		if id.OAuthEmail == "" {
+		if id.OAuthEmail == "" && !id.OAuthNoEmail {
 			return apiErr("user", int32(upb.UserServiceError_OAUTH_INVALID_TOKEN), "no valid OAuth token")
 		}
 		res := out.(*upb.GetOAuthUserResponse)
